@@ -248,6 +248,13 @@ func (f *Frame) intBinop(in ssa.Instruction, op token.Token, x, y Val, xin, yin 
 	lo, hi := intRange(bits, signed)
 	wrap := func(r string) Val {
 		if !signed {
+			if g.FC != nil && g.FC.Opts["no-unsigned-wrap"] != "" && (op == token.ADD || op == token.MUL) {
+				// assumption (listed): unsigned counters of this function never wrap around; executions on which
+				// they would are not considered
+				g.Assumptions["no-unsigned-wrap: unsigned additions/multiplications in "+g.FC.Name+" are assumed not to wrap around (counters stay below 2^"+fmt.Sprint(bits)+")"] = true
+				g.assume(implies(f.curReach, app("<", r, pow2(bits).String())))
+				return Val{S: r, Sort: "Int", GT: rt}
+			}
 			return Val{S: app("mod", r, pow2(bits).String()), Sort: "Int", GT: rt}
 		}
 		if in != nil {
